@@ -2,6 +2,12 @@
 
 use crate::*;
 
+/// route the initial-guess exp2 through the simulation seam (shadows crate::exp2 here)
+#[cfg(bigdecimal_verif)]
+fn exp2(x: f64) -> f64 {
+    verif_hooks::float(verif_hooks::FloatSite::InvGuessExp2, x, crate::exp2(x))
+}
+
 /// Implementation of inverse: (1/n)
 pub(crate) fn impl_inverse_uint_scale(n: &BigUint, scale: i64, ctx: &Context) -> BigDecimal {
     let guess = make_inv_guess(n.bits(), scale);
@@ -25,6 +31,9 @@ pub(crate) fn impl_inverse_uint_scale(n: &BigUint, scale: i64, ctx: &Context) ->
     // TODO: Prove that we don't need to arbitrarily limit iterations
     // and that convergence can be calculated
     while prev_result != result {
+        #[cfg(bigdecimal_verif)]
+        verif_hooks::step(verif_hooks::StepSite::InverseLoop, running_result.scale, running_result.int_val.bits());
+
         // store current result to test for convergence
         prev_result = result;
 
